@@ -212,7 +212,7 @@ func (self *Analyzer) ConvertType(oldType pAst.HmsType, createErrors bool) ast.T
 	case pAst.OptionParserTypeKind:
 		optionType := oldType.(pAst.OptionType)
 		return ast.NewOptionType(
-			self.ConvertType(optionType.Inner, true),
+			self.ConvertType(optionType.Inner, createErrors),
 			oldType.Span(),
 		)
 	default:
